@@ -13,8 +13,9 @@ Scheme (statement by statement, continuation-passing over the rustmini AST):
     `OReturn r` = `return` / `?`); a `for` over a map is a `Fixpoint` over its entry list;
   * `output.start_file / append_file_content / end_file / finalize` are the translated
     `ArchiveWriter` methods of gen/Src2.v;
-  * `ArchiveFileBlock::from(&mut self.src)` is the section variable `block_from` (the ONE
-    trusted link: theories/SrcTie3Repair.v instantiates it with `Blocks.parse_block`);
+  * `ArchiveFileBlock::from(&mut self.src)` is the section variable `block_from`: theories/SrcTie3RepairLoop.v
+    instantiates it with the TRANSLATED block parser of gen/Src3b.v (tools/src2v3_block.py; no longer a
+    trusted link: SrcTie3Block.block_from_src);
   * what a loop does when the fuel is used up has no counterpart in the Rust text: it is
     scheme configuration (FUEL_ARMS, Rust snippets translated in the context of the loop),
     chosen as in theories/Repair.v so that the simulation is an equality for EVERY fuel.
